@@ -110,7 +110,7 @@ def _entry_tests(R):
                      'proxy for which this is false (a `host:port` URL has no parsed host name) is silently bypassed and the '
                      'handshake goes straight to the target' % (fq, U(t.ast)), func=fi, node=t.ast,
                      construct='proxy decision %s' % U(t.ast))
-    need(n >= 1, 'no test on the configured proxy entry found in session.py')
+    return n      # (the rules below anchor the lookup itself: no count is required here)
 
 
 def choice(R):
